@@ -146,3 +146,66 @@ func VerifC34_holder() {
 	}
 	verifReach("released")
 }
+
+// ---- two lockers (two clients) on one Redis: hand-over from a holder to a waiter
+
+type verifLockClient struct {
+	id  int
+	l   *locker
+	sc  *verifScriptClient
+	inv chan []rueidis.RedisMessage // invalidation pushes in flight to this client
+}
+
+func VerifC34_handover() {
+	red := &verifRedis{}
+	clients := make([]*verifLockClient, 2)
+	for i := range clients {
+		c := &verifLockClient{id: i, inv: make(chan []rueidis.RedisMessage, 64)}
+		c.sc = &verifScriptClient{r: red}
+		c.sc.before = func(argv []string) error {
+			red.nowMs = time.Now().UnixMilli()
+			red.curClient = c.id
+			return nil
+		}
+		l, err := NewLocker(LockerOption{KeyMajority: 2, ClientBuilder: func(rueidis.ClientOption) (rueidis.Client, error) { return c.sc, nil }})
+		verifAssert(err == nil, "locker constructed")
+		c.l = l.(*locker)
+		clients[i] = c
+	}
+	// pushes are delivered asynchronously, in order per connection, by one goroutine per client
+	red.notify = func(client int, key string) {
+		clients[client].inv <- []rueidis.RedisMessage{verifMsgStr('$', key)}
+	}
+	for _, c := range clients {
+		c := c
+		verifGo("push", func() {
+			verifDaemon()
+			for m := range c.inv {
+				c.l.onInvalidations(m)
+			}
+		})
+	}
+	ctx1, cancel1, err := clients[0].l.WithContext(context.Background(), "n")
+	verifAssert(err == nil && ctx1.Err() == nil, "the first locker acquires the free lock")
+	verifSettle()
+	var ctx2 context.Context
+	var cancel2 context.CancelFunc
+	got2 := false
+	verifGo("waiter", func() {
+		var err error
+		ctx2, cancel2, err = clients[1].l.WithContext(context.Background(), "n")
+		verifAssert(err == nil, "the waiter acquires the lock after the release")
+		verifAssert(ctx1.Err() != nil, "at most one holder's lock context is live at any moment")
+		verifAssert(ctx2.Err() == nil, "the waiter's context is live once it holds the lock")
+		got2 = true
+	})
+	if verifChoose(2) == 1 {
+		verifSettle() // the waiter has tried and is parked on its gate
+		verifReach("parked")
+	}
+	cancel1()
+	verifJoin()
+	verifAssert(got2, "the waiter is woken up by the release")
+	cancel2()
+	verifReach("handover")
+}
